@@ -1160,6 +1160,11 @@ class Executor:
                 r = a is b
             elif isinstance(a, bool) and isinstance(b, bool):
                 r = a == b
+            elif (isinstance(a, bool) and is_z3(b) and z3.is_bool(b)) or (isinstance(b, bool) and is_z3(a) and z3.is_bool(a)):
+                # identity test against the singletons True / False: equal to `==` for python bools (a numpy boolean would differ: layer B)
+                self.assumed.append("`is True/False` at L%d decided as == (boolean flags are python bools in the model)" % node.lineno)
+                za, zb = (z3.BoolVal(a), b) if isinstance(a, bool) else (a, z3.BoolVal(b))
+                return (za == zb) if isinstance(op, ast.Is) else (za != zb)
             else:
                 raise OutOfSubset("`is` on %r, %r" % (a, b), node)
             return r if isinstance(op, ast.Is) else not r
